@@ -4,6 +4,12 @@ Model: XV.Model.Utf8 (code-shaped XMLUTF8Transcoder, tables regenerated from the
 Spec:  XV.Spec.Utf8  (Unicode Tables 3-6 / 3-7, D91).
 -/
 import XV.Lemmas.Utf8
+import XV.Lemmas.ByteCodec2
+import XV.Lemmas.Recognizer
+import XV.Lemmas.ByteTableWin1252
+import XV.Lemmas.ByteTableEbcdic037
+import XV.Lemmas.ByteTableIbm1047
+import XV.Lemmas.ByteTableIbm1140
 namespace XV.Props.C05
 open XV.Model.Utf8 XV.Spec.Utf8 XV.Lemmas.Utf8
 
@@ -78,6 +84,117 @@ theorem utf8_roundtrip (thr : Bool) (ss : List Nat) (hs : Scalars ss) (room m : 
   obtain ⟨sz, h⟩ := utf8_decode_complete ss hs m hm
   exact ⟨encodeAll ss, _, sz, utf8_encode_exact thr ss hs room hr hne hroom, h⟩
 
+/-! ### single-byte code pages (Windows-1252, IBM037, IBM1047, IBM1140): generated tables -/
+section ByteTables
+open XV.Model.ByteCodec XV.Gen.ByteTables XV.Lemmas.ByteCodec
+
+theorem all_eq : all = [tblWin1252, tblEbcdic037, tblIbm1047, tblIbm1140] := rfl
+
+/-- shape facts of the generated tables: declared size = real size, keys strictly increasing (the
+precondition of the binary search), first record (0,0), no undefined byte. -/
+theorem bytetables_wellformed : ∀ t ∈ all,
+    t.declaredToSize = t.toTable.length ∧ t.fromTable.length = 256 ∧ 0 < t.toTable.length ∧
+    strictSorted (t.toTable.map (·.1)) = true ∧ t.toTable.getD 0 (1, 1) = (0, 0) ∧
+    (∀ b, b < 256 → t.fromTable.getD b 0xFFFF ≠ 0xFFFF) := by
+  intro t ht
+  rw [all_eq] at ht
+  simp only [List.mem_cons, List.mem_nil_iff, or_false] at ht
+  rcases ht with rfl | rfl | rfl | rfl
+  · exact XV.Lemmas.ByteTableWin1252.wellformed
+  · exact XV.Lemmas.ByteTableEbcdic037.wellformed
+  · exact XV.Lemmas.ByteTableIbm1047.wellformed
+  · exact XV.Lemmas.ByteTableIbm1140.wellformed
+
+/-- the do/while binary search of `xlatOneTo` is a dictionary lookup on every shipped table, for every unit -/
+theorem xlatOneTo_is_lookup : ∀ t ∈ all, ∀ c, xlatOneTo t c = lookup t.toTable c := by
+  intro t ht c
+  obtain ⟨h1, _, h3, h4, h5, _⟩ := bytetables_wellformed t ht
+  exact xlatOneTo_eq_lookup t h4 h1 h3 h5 c
+
+/-- decode ∘ encode ∘ decode = decode for every byte of every table (the from/to tables are mutually
+inverse up to bytes that decode to the same character) -/
+theorem bytetables_roundtrip : ∀ t ∈ all, ∀ b, b < 256 →
+    t.fromTable.getD (lookup t.toTable (t.fromTable.getD b 0xFFFF)) 0xFFFF = t.fromTable.getD b 0xFFFF := by
+  intro t ht
+  rw [all_eq] at ht
+  simp only [List.mem_cons, List.mem_nil_iff, or_false] at ht
+  rcases ht with rfl | rfl | rfl | rfl
+  · exact XV.Lemmas.ByteTableWin1252.roundtrip
+  · exact XV.Lemmas.ByteTableEbcdic037.roundtrip
+  · exact XV.Lemmas.ByteTableIbm1047.roundtrip
+  · exact XV.Lemmas.ByteTableIbm1140.roundtrip
+
+/-- every to-record whose character is decodable at all maps it to a byte that decodes back to it -/
+theorem bytetables_to_consistent : ∀ t ∈ all, ∀ p ∈ t.toTable,
+    p.2 < 256 ∧ p.1 < 65536 ∧ (p.1 ∈ t.fromTable → t.fromTable.getD p.2 0xFFFF = p.1) := by
+  intro t ht
+  rw [all_eq] at ht
+  simp only [List.mem_cons, List.mem_nil_iff, or_false] at ht
+  rcases ht with rfl | rfl | rfl | rfl
+  · exact XV.Lemmas.ByteTableWin1252.to_consistent
+  · exact XV.Lemmas.ByteTableEbcdic037.to_consistent
+  · exact XV.Lemmas.ByteTableIbm1047.to_consistent
+  · exact XV.Lemmas.ByteTableIbm1140.to_consistent
+end ByteTables
+
+/-! ### fixed-width encodings -/
+section Fixed
+open XV.Model.ByteCodec XV.Lemmas.ByteCodec
+
+theorem utf16_roundtrip (be : Bool) (us : List Nat) (h : ∀ u ∈ us, u < 65536) (m mb : Nat)
+    (hm : us.length ≤ m) (hmb : 2 * us.length ≤ mb) :
+    utf16To be us mb = .ok (us.flatMap (bytes16 be)) [] us.length ∧
+    utf16From be (us.flatMap (bytes16 be)) m = .ok us (List.replicate us.length 2) (2 * us.length) :=
+  XV.Lemmas.ByteCodec.utf16_roundtrip be us h m mb hm hmb
+
+theorem ucs4_decode_exact (be : Bool) (ss : List Nat) (hs : Scalars ss) (m : Nat) (hm : (utf16All ss).length ≤ m) :
+    ∃ sz, ucs4From be (ss.flatMap (bytes32 be)) m = .ok (utf16All ss) sz (4 * ss.length) :=
+  XV.Lemmas.ByteCodec.ucs4_decode_exact be ss hs m hm
+
+theorem ucs4_encode_exact (be : Bool) (ss : List Nat) (hs : Scalars ss) (mb : Nat) (hmb : 4 * ss.length ≤ mb) :
+    ucs4To be (utf16All ss) mb = .ok (ss.flatMap (bytes32 be)) [] (utf16All ss).length :=
+  XV.Lemmas.ByteCodec.ucs4_encode_exact be ss hs mb hmb
+
+theorem ucs4_rejects_out_of_range (v : Nat) (hv : 0x10FFFF < v) (rest : List Nat) (room : Nat) (hr : room ≠ 0)
+    (out sizes : List Nat) (eaten : Nat) :
+    ucs4FromLoop (v :: rest) room out sizes eaten = .exc "Trans_BadSrcSeq" :=
+  XV.Lemmas.ByteCodec.ucs4_rejects_out_of_range v hv rest room hr out sizes eaten
+
+theorem latin1_roundtrip (cs : List Nat) (h : ∀ c ∈ cs, c < 256) (m : Nat) (hm : cs.length ≤ m) (thr : Bool) :
+    latin1To cs m thr = .ok cs [] cs.length ∧ latin1From cs m = .ok cs (List.replicate cs.length 1) cs.length :=
+  XV.Lemmas.ByteCodec.latin1_roundtrip cs h m hm thr
+end Fixed
+
+/-! ### encoding detection (XML 1.0 Appendix F) -/
+section Probe
+open XV.Model.Recognizer XV.Gen.Recognizer XV.Lemmas.Recognizer
+
+/-- the recogniser's byte prefixes are exactly `<?xml ` in each encoding family (EBCDIC via the IBM037 table) -/
+theorem probe_prefixes_are_encodings :
+    fgASCIIPre = declText ∧
+    fgUTF16BPre = declText.flatMap (XV.Model.ByteCodec.bytes16 true) ∧ fgUTF16LPre = declText.flatMap (XV.Model.ByteCodec.bytes16 false) ∧
+    fgUCS4BPre = declText.flatMap (XV.Model.ByteCodec.bytes32 true) ∧ fgUCS4LPre = declText.flatMap (XV.Model.ByteCodec.bytes32 false) ∧
+    fgEBCDICPre = declText.map (XV.Model.ByteCodec.lookup XV.Gen.ByteTables.toEbcdic037) ∧ fgUTF8BOM = [0xEF, 0xBB, 0xBF] :=
+  XV.Lemmas.Recognizer.prefixes_are_encodings
+
+/-- any text that begins with the XML declaration opener in family E is sensed as E, whatever follows -/
+theorem probe_eq_appendixF_decl (rest : List Nat) :
+    basicEncodingProbe (fgASCIIPre ++ rest) = .UTF_8 ∧ basicEncodingProbe (fgUTF16BPre ++ rest) = .UTF_16B ∧
+    basicEncodingProbe (fgUTF16LPre ++ rest) = .UTF_16L ∧ basicEncodingProbe (fgUCS4BPre ++ rest) = .UCS_4B ∧
+    basicEncodingProbe (fgUCS4LPre ++ rest) = .UCS_4L ∧ (rest ≠ [] → basicEncodingProbe (fgEBCDICPre ++ rest) = .EBCDIC) :=
+  ⟨probe_decl_utf8 rest, probe_decl_utf16b rest, probe_decl_utf16l rest, probe_decl_ucs4b rest, probe_decl_ucs4l rest,
+   probe_decl_ebcdic rest⟩
+
+/-- any text that begins with a byte-order mark is sensed as the family of that mark -/
+theorem probe_eq_appendixF_bom (x y : Nat) (rest : List Nat) :
+    basicEncodingProbe ([0x00, 0x00, 0xFE, 0xFF] ++ rest) = .UCS_4B ∧
+    basicEncodingProbe ([0xFF, 0xFE, 0x00, 0x00] ++ rest) = .UCS_4L ∧
+    basicEncodingProbe ([0xFE, 0xFF, x, y] ++ rest) = .UTF_16B ∧
+    (¬ (x = 0 ∧ y = 0) → basicEncodingProbe ([0xFF, 0xFE, x, y] ++ rest) = .UTF_16L) ∧
+    basicEncodingProbe ([0xEF, 0xBB, 0xBF] ++ rest) = .UTF_8 :=
+  ⟨probe_bom_ucs4b rest, probe_bom_ucs4l rest, probe_bom_utf16b x y rest, probe_bom_utf16l x y rest, probe_bom_utf8 rest⟩
+end Probe
+
 /-! Non-vacuity: the hypotheses are met by concrete non-trivial data. -/
 example : Scalars [0x41, 0xE9, 0x20AC, 0x1F600] ∧ encodeAll [0x41, 0xE9, 0x20AC, 0x1F600]
     = [0x41, 0xC3, 0xA9, 0xE2, 0x82, 0xAC, 0xF0, 0x9F, 0x98, 0x80] := by
@@ -89,5 +206,8 @@ example : wellFormed [0xF4, 0x8F, 0xBF, 0xBF] = true ∧ wellFormed [0xED, 0xA0,
 example : transcodeFrom [0x41, 0xC3, 0xA9, 0xF0, 0x9F, 0x98, 0x80] 8 = .ok [0x41, 0xE9, 0xD83D, 0xDE00] [1, 2, 4, 0] 7 := by
   decide
 example : transcodeFrom [0xED, 0xA0, 0x80] 8 = .exc .irregular3 := by decide
+
+example : XV.Model.ByteCodec.ucs4To true (utf16All [0x41, 0x1F600]) 8 = .ok [0, 0, 0, 0x41, 0, 1, 0xF6, 0] [] 3 := by decide
+example : XV.Model.Recognizer.basicEncodingProbe [0xFF, 0xFE, 0x3C, 0x00] = .UTF_16L := by decide
 
 end XV.Props.C05
